@@ -726,7 +726,19 @@ impl Interp {
                         let flags = hooks::phase_flags().unwrap_or((false, false, false));
                         let idle = ctx.selfp.is_none() && self.cb_depth.get() == 0 && !is_tracing() && !flags.0 && !flags.1 && !flags.2;
                         let watch = if idle && cc.strong_count() == 1 { Some(hooks::snapshot(&cc).box_addr) } else { None };
+                        // C02 / C11 oracle: outside every collection and callback, a `Cc::drop` that leaves the count above 0
+                        // buffers the object (it may have become the root of a garbage cycle)
+                        let shared = if idle && cc.strong_count() >= 2 { Some(hooks::snapshot(&cc).box_addr) } else { None };
                         drop(cc);
+                        if let Some(addr) = shared {
+                            if alloc::is_live(addr) {
+                                let snap = unsafe { hooks::snapshot_at(addr) };
+                                let v = hooks::counter_apply(snap.tracing_word, snap.counter_word, None);
+                                if v.mark != 1 {
+                                    ev!("!dec-not-buffered:{}:{}", self.id_of_box(addr).unwrap_or(usize::MAX), v.mark);
+                                }
+                            }
+                        }
                         if let Some(addr) = watch {
                             if alloc::is_live(addr) {
                                 let snap = unsafe { hooks::snapshot_at(addr) };
